@@ -69,6 +69,7 @@ theorem honest_key_valid (h : Lawful lib) (hord : OrderExact lib) (hprime : Nat.
 theorem canonicalY_iff (x : Bytes) (hx : x.length = 32) :
     Vrf.isCanonicalY x = true ↔ leNat x % 2 ^ 255 < Iota.Edwards.p := E3_isCanonicalY x hx
 
+omit [AddCommGroup G] in
 /-- **codec, decoding**: only 80-byte strings with s < L (c is 16 bytes) decode, and what decodes
 re-encodes to itself. -/
 theorem decode_canonical (hed : EncodeDecode lib) (b : Bytes) (pr : Vrf.Proof G)
